@@ -74,7 +74,31 @@ CLAIMED = {
              "torn-tail (power-loss) images, a syscall-level check that every acknowledgement follows an fsync of the journal, content present for visible hashed frames.",
              design="5/C04", technique="Lean 4 proof over a journal model (one-batch-per-operation refinement); crash images from real kills + strace-checked fsync-before-ack discipline",
              note="J"),
+ "C14": dict(text="Theorems over the Lean model of one handler instance (Handler::serve / process_frame / EngineWorker; the closure is an arbitrary function of environment and frame): the closure "
+             "is run for exactly the frames of its subscription that are neither its own output nor registration traffic of its name - each once, in delivery order, up to the frame that stops it; never for "
+             "its own output (so it cannot feed itself), never after it stopped; the subscription holds its context's frames only and every frame appended after it subscribed; the environment of one call "
+             "is what the next starts from. Every started instance of every scenario is replayed on the model.",
+             design="5/C14", technique="Lean 4 proof over a model of the handler loop (closure as a parameter); correspondence by replaying each real instance's subscription on the model", note="S"),
+ "C15": dict(text="Theorems: every frame a call emits carries handler_id and frame_id (written after the user's meta, so they cannot be overridden; other user keys survive) and the handler's context whatever "
+             "--context said; a successful call emits the explicit appends in call order, then the return value on <name><suffix> with the configured TTL; a failing call emits nothing but one "
+             "<name>.unregistered with the error, wherever the failure sits. The run also checks that each emitted frame's content is in the CAS when a follower is handed the frame.",
+             design="5/C15", technique="Lean 4 proof over the handler model; correspondence over generated behaviour tables rendered to nushell scripts", note="S"),
+ "C16": dict(text="Theorems: a later .register / .unregister of its name stops an instance (so at most one instance per context and name outlives a new registration); closure error and invalid script stop / "
+             "reject it; every stop is announced by exactly one <name>.unregistered, the last frame the instance emits; a stopped instance processes nothing; start_handler subscribes before it announces, "
+             "so everything appended once <name>.registered is visible is in the subscription's live part; the start-up scan keeps one registration per (context, name). The subscribe/announce order of the "
+             "real code is read from sync points.",
+             design="5/C16", technique="Lean 4 proof over the handler and serve-loop models; correspondence incl. sync-point order of subscribe vs announce", note="S"),
+ "C17": dict(text="Theorems over the fold model of the start-up scan (handlers/serve.rs) keyed by (context, name): a registration is started again iff nothing later in the stored stream dropped it (characterisation "
+             "of the fold for every history); given that stops are announced (C16), that is iff its live instance was still running; replaced / failed / rejected / unregistered registrations never come back; "
+             "frames of other contexts are irrelevant; restarts are in id order with the register frame's id; tail resumption re-executes nothing. Kill + restart scenarios compare who is announced with the model. "
+             "Generators and commands: see C18/C19.",
+             design="5/C17", technique="Lean 4 proof (fold characterisation + link to the instance model); correspondence over kill/restart scenarios", note="S"),
 }
+
+SERVE_NOTE = ("Trusted: Lean 4.33 kernel (axioms propext, Classical.choice, Quot.sound only); hand models XsModel/{Handler,Registry}.lean; nushell itself (the closure is a parameter of the model; generated scripts "
+              "are rendered from a behaviour table that the Lean driver interprets - a wrong rendering shows up as a disagreement); the store's follow subscription as proved for C02/C03/C06. Tie: scenarios run on "
+              "the real serve loops (as `xs serve` starts them) in the worker; a tap follower records every frame; each started instance's subscription is rebuilt from the tap and run on the model; announcements "
+              "and outputs must agree.")
 
 JOURNAL_NOTE = ("Trusted: Lean 4.33 kernel; hand model XsModel/Journal.lean; ASSUMED (not verified): fjall recovers a batch iff it is completely on disk and persist(SyncAll) makes the journal durable; "
                 "the OS keeps completed writes of a killed process. Tie: histories run in a child process killed after an acknowledged write or a random delay into the next one; the directory and "
@@ -105,7 +129,7 @@ def check_entry(pid):
         "replay_cmd_template": f"./check {pid} --replay {{path}}",
         "engine": "lean+xsw",
         "level_claimed": {"category": "proof", "text": c["text"], "design_ref": "DESIGN.md section " + c["design"]},
-        "level_note": FOLLOW_NOTE if c.get("note") == "B" else WIRE_NOTE if c.get("note") == "W" else HTTP_NOTE if c.get("note") == "H" else JOURNAL_NOTE if c.get("note") == "J" else c.get("note", STORE_NOTE),
+        "level_note": FOLLOW_NOTE if c.get("note") == "B" else WIRE_NOTE if c.get("note") == "W" else HTTP_NOTE if c.get("note") == "H" else JOURNAL_NOTE if c.get("note") == "J" else SERVE_NOTE if c.get("note") == "S" else c.get("note", STORE_NOTE),
         "technique": c["technique"],
     }
 
